@@ -46,10 +46,10 @@ theorem select_api_ok (hE : EnvOK env G) {e : Editor D L} (hi : EditorInv env G 
     rw [hq]
     cases t with
     | toState st =>
-      exact select_tail_ok hE (sh := { sh' with last := .absorb }) (st := st) (h1.congr rfl rfl rfl rfl rfl)
+      exact select_tail_ok hE (sh := { sh' with last := .absorb }) (st := st) (h1.congr rfl rfl rfl rfl rfl rfl)
         ((h3 st rfl).same rfl rfl)
     | spin b =>
-      exact select_tail_ok hE (sh := { sh' with last := b }) (st := .selecting s') (h1.congr rfl rfl rfl rfl rfl)
+      exact select_tail_ok hE (sh := { sh' with last := b }) (st := .selecting s') (h1.congr rfl rfl rfl rfl rfl rfl)
         (StInv.same (st := .selecting s') (h2 b rfl) rfl rfl)
   · exact .ok hi
 
@@ -80,16 +80,16 @@ theorem apply_ok (hE : EnvOK env G) {e : Editor D L} (hi : EditorInv env G e) (o
     obtain ⟨⟨e', b⟩, hq, h1⟩ := commit_api_ok hE hi
     simp only [Editor.apply]; rw [hq]; exact .ok h1
   | clear => exact .ok (clear_api_ok hi)
-  | ack => exact .ok ⟨hi.sh.congr rfl rfl rfl rfl rfl, hi.st.same rfl rfl⟩
+  | ack => exact .ok ⟨hi.sh.congr rfl rfl rfl rfl rfl rfl, hi.st.same rfl rfl⟩
   | clearSyl =>
-    exact .ok (leaveIfEmpty_inv ⟨hi.sh.congr rfl rfl rfl rfl rfl, hi.st.same rfl rfl⟩)
+    exact .ok (leaveIfEmpty_inv ⟨hi.sh.congr rfl rfl rfl rfl rfl rfl, hi.st.same rfl rfl⟩)
   | setOptions o =>
     simp only [Known, Classical.not_not] at hk
     refine .ok (leaveIfEmpty_inv ?_)
     have hsh : ∀ sh1 : Shared D L, sh1.dict = e.shared.dict → sh1.com = e.shared.com → sh1.engine = e.shared.engine →
-        ShInv env G { sh1 with options := o } := by
-      intro sh1 hd hcm he
-      refine ⟨hd ▸ hi.sh.good, hcm ▸ hi.sh.ced, ?_, ?_, hv⟩
+        sh1.symSel = e.shared.symSel → ShInv env G { sh1 with options := o } := by
+      intro sh1 hd hcm he hsy
+      refine ⟨hd ▸ hi.sh.good, hcm ▸ hi.sh.ced, ?_, ?_, hv, hsy ▸ hi.sh.symOK⟩
       · intro c hcc
         have hcc' : Sym.syl c ∈ e.shared.com.inner.symbols := by
           have : sh1.com.inner.symbols = e.shared.com.inner.symbols := by rw [hcm]
@@ -100,19 +100,19 @@ theorem apply_ok (hE : EnvOK env G) {e : Editor D L} (hi : EditorInv env G e) (o
       · show o.lookupStrategy = .fuzzyPartialPrefix → engStrategy sh1.engine = .fuzzyPartialPrefix
         rw [he]; exact hk.2
     by_cases hlm : (e.shared.options.languageMode != o.languageMode) = true
-    · exact ⟨by rw [if_pos hlm]; exact hsh _ rfl rfl rfl, by rw [if_pos hlm]; exact hi.st.same rfl rfl⟩
-    · exact ⟨by rw [if_neg hlm]; exact hsh _ rfl rfl rfl, by rw [if_neg hlm]; exact hi.st.same rfl rfl⟩
+    · exact ⟨by rw [if_pos hlm]; exact hsh _ rfl rfl rfl rfl, by rw [if_pos hlm]; exact hi.st.same rfl rfl⟩
+    · exact ⟨by rw [if_neg hlm]; exact hsh _ rfl rfl rfl rfl, by rw [if_neg hlm]; exact hi.st.same rfl rfl⟩
   | setLayout l =>
-    exact .ok (leaveIfEmpty_inv ⟨hi.sh.congr rfl rfl rfl rfl rfl, hi.st.same rfl rfl⟩)
+    exact .ok (leaveIfEmpty_inv ⟨hi.sh.congr rfl rfl rfl rfl rfl rfl, hi.st.same rfl rfl⟩)
   | setEngine k =>
     simp only [Known, Classical.not_not] at hk
-    refine .ok ⟨⟨hi.sh.good, hi.sh.ced, ?_, hk.2, hi.sh.perPage⟩, hi.st.same rfl rfl⟩
+    refine .ok ⟨⟨hi.sh.good, hi.sh.ced, ?_, hk.2, hi.sh.perPage, hi.sh.symOK⟩, hi.st.same rfl rfl⟩
     intro c hcc
     exact ⟨hk.1 c hcc, (hi.sh.word c hcc).2⟩
   | learn k p => exact learn_api_ok hE hi k p
   | unlearn k p =>
     simp only [Known, Classical.not_not] at hk
-    refine .ok ⟨⟨hE.remove_good _ _ _ hi.sh.good, hi.sh.ced, ?_, hi.sh.coupled, hi.sh.perPage⟩, ?_⟩
+    refine .ok ⟨⟨hE.remove_good _ _ _ hi.sh.good, hi.sh.ced, ?_, hi.sh.coupled, hi.sh.perPage, hi.sh.symOK⟩, ?_⟩
     · intro c hcc
       exact ⟨hk.1 c hcc, hk.2.1 c hcc⟩
     · exact stInv_unlearn hi hk.2.2 rfl rfl
